@@ -71,6 +71,12 @@ var numericDefs = []vdef{
 	g("BigFloat +Inf", func() value.Value { return value.Ref(value.BigFloatInf()) }),
 	g("BigFloat -Inf", func() value.Value { return value.Ref(value.BigFloatNegInf()) }),
 	et("-1.5bf"), et("9223372036854775808bf"),
+	// BigFloats whose precision is below that of a Float (only reachable through set_precision / `p`), with Floats
+	// that are not representable at that precision and round onto or across them
+	g("BigFloat 1 at precision 8", func() value.Value { return value.Ref((&value.BigFloat{}).SetPrecision(8).SetSmallInt(1)) }),
+	g("BigFloat 3 at precision 4", func() value.Value { return value.Ref((&value.BigFloat{}).SetPrecision(4).SetSmallInt(3)) }),
+	g("BigFloat 1 at precision 100", func() value.Value { return value.Ref((&value.BigFloat{}).SetPrecision(100).SetSmallInt(1)) }),
+	e("1.001"), e("0.999"), e("1.00390625"), e("3.01"), e("2.99"),
 	// Float64 / Float32
 	e("1.0f64"), e("1.5f64"), e("0.1f64"), e("9007199254740992.0f64"), e("-fz64()"), e("0.0f64"), e("0.0f64 / 0.0f64"),
 	e("1.0f32"), e("1.5f32"), e("0.1f32"), e("16777216.0f32"), e("0.0f32"), e("-fz32()"), e("0.0f32 / 0.0f32"),
